@@ -7,6 +7,7 @@ requests (floats as 16 hex digits / `nan`, rationals as `p/q` / `nan`):
   kernel  P rain maxgap eps hstart nvalh [secs] [vals]   -> `ok [h0,...]` | `err <guard>`
   kernelq P rain maxgap eps hstart nvalh [secs] [vals]   (exact rationals)
   wrapper P rain maxgap eps [secs] [vals]                -> `ok hstart [h0,...]` | `err <guard>`
+  wrapperidx P rain maxgap eps unit [raw] [utcoffset] [vals] -> `ok hstart [h0,...] [wallsecs]` (index as stored)
   scan hstart [secs]                                     -> index of `varindex` after the start scan | `none`
 -/
 
@@ -34,6 +35,13 @@ def ratOptTok? (s : String) : Option (Option Rat) :=
   if s = "nan" then some none else (ratTok? s).map some
 
 def parseRatOptList? (s : String) : Option (List (Option Rat)) := allSome ((listToks s).map ratOptTok?)
+
+def unitTok? : String → Option TUnit
+  | "s" => some .s
+  | "ms" => some .ms
+  | "us" => some .us
+  | "ns" => some .ns
+  | _ => none
 
 def mkObs {α : Type} (secs : List Int) (vals : List (Option α)) : List (Obs α) := secs.zip vals
 
@@ -63,6 +71,17 @@ def handle (toks : List String) : String :=
       | .ok (hs, r) => s!"ok {hs} " ++ fmtList (r.map fmtOF)
       | .error e => "err " ++ errName e
     | _, _, _, _, _, _ => "bad-op"
+  | ["wrapperidx", p, rain, mg, eps, unit, raws, offs, vals] =>
+    match p.toInt?, rain.toInt?, mg.toInt?, floatTok? eps, unitTok? unit, parseIntList? raws, parseIntList? offs,
+        parseFloatList? vals with
+    | some p, some rain, some mg, some eps, some u, some raws, some offs, some vals =>
+      if raws.length ≠ vals.length ∨ raws.length ≠ offs.length then "bad-op" else
+      let stamps : List (Stamp Float) := (raws.zip (offs.zip (vals.map optF)))
+      let secs := (obsOfIndex u stamps).map (·.1)
+      match wrapperIdx (α := Float) ⟨p, rain, mg, eps⟩ u stamps with
+      | .ok (hs, r) => s!"ok {hs} " ++ fmtList (r.map fmtOF) ++ " " ++ fmtIntList secs
+      | .error e => "err " ++ errName e ++ " " ++ fmtIntList secs
+    | _, _, _, _, _, _, _, _ => "bad-op"
   | ["scan", hs, secs] =>
     match hs.toInt?, parseIntList? secs with
     | some hs, some secs =>
